@@ -29,6 +29,10 @@ package kgo
 //@   frozen d.cfg.regex
 //@   site mapupdate Offset#0 assert [only-wanted-topics-never-internal-by-regex] useTopic && !(d.cfg.regex && $load1.isInternal) && val == d.cfg.startOffset && mapkey == int32(partition)
 //@   site mapupdate Offset#1 assert [pinned-partitions-with-their-offsets] mapkey == partition && val == offset
+//   the subtraction of what is already in use removes exactly the partitions in use, one by one, and a topic leaves
+//   the result only when nothing new is left for it - a wanted partition that is not in use always stays selected
+//@   site call delete#0 assert [only-partitions-in-use-are-subtracted] arg0 == toUseTopic && arg1 == partition
+//@   site call delete#1 assert [a-topic-is-dropped-only-when-nothing-new-is-left] arg0 == toUse && arg1 == topic && len(toUseTopic) == 0
 
 // onlyt: a topic is "configured without partitions" exactly when it is present with an empty partition set.
 //@ func (m mtmps) onlyt(t string) (r bool)
@@ -92,3 +96,10 @@ package kgo
 //@ func (cl *Client) mergeTopicPartitions(topic string, l *topicPartitions, mt *metadataTopic, kind partitionKind, css *consumerSessionStopper, retryWhy *multiUpdateWhy)
 //@   prop C39
 //@   site store isInternal#0 assert [internal-flag-taken-from-the-metadata] val == r.isInternal
+
+// ConsumeExcludeTopics (the option's closure): exclusions accumulate across uses of the option - the map is created
+// only when there is none yet, so a topic excluded by an earlier use stays excluded.
+//@ func ConsumeExcludeTopics$1(cfg *cfg)
+//@   prop C39
+//@   site store excludeTopics#0 assert [created-only-when-absent-earlier-exclusions-kept] prev == nil
+//@   site mapupdate *regexp.Regexp#0 assert [every-listed-topic-is-excluded] mapkey == topic && map == cfg.excludeTopics
